@@ -328,6 +328,12 @@ def gen_history(rng, k, tier, sms, failures=False, mixed=True):
             calls.append(again)
             j += 1
     calls.append({'kind': 'stop_and_join', 'want_exit_results': True})
+    if any(c.get('fail') in ('init_raise', 'exit_raise') for c in calls):
+        # these histories need fresh workers for every call (worker_init runs at the start, worker_exit at the end of the call):
+        # no setter may switch keep_alive back on (the oracle would expect an error from a function that is not run)
+        for c in calls:
+            if c.get('kind') == 'setter' and c.get('name') == 'set_keep_alive':
+                c['args'] = [False]
     sc = {'id': f'h{k}', 'pool': pool, 'calls': calls, 'budget': 75, 'behaviour': behaviour}
     return annotate_history(sc)
 
